@@ -11,11 +11,13 @@ Next == /\ l <= Len(Rec)
            THEN LET exp == CloneStep(regs, e)
                     got == [i \in 1..NREG |-> e.regs[i]]
                     ok == \A i \in 1..NREG : IsInt(got[i]) /\ IEq(got[i], exp[i])
-                IN /\ bad' = IF ok THEN bad
+                IN /\ bad' = IF e.op = "panicked" THEN Append(bad, [i |-> l, why |-> "clone-step-panicked"])
+                             ELSE IF ok THEN bad
                              ELSE Append(bad, [i |-> l, why |-> IF IEq(got[e.dst], exp[e.dst]) THEN "clone-not-independent" ELSE "clone-wrong-value"])
                    /\ regs' = got                 \* re-synchronise from the observation
            ELSE /\ regs' = regs
-                /\ bad' = IF "outs" \notin DOMAIN e THEN bad        \* single-form query events
+                /\ bad' = IF Fam(e) = "driver" THEN Append(bad, [i |-> l, why |-> "operand-construction-panicked"])
+                          ELSE IF "outs" \notin DOMAIN e THEN bad        \* single-form query events
                           ELSE IF Disagreement(e) THEN Append(bad, [i |-> l, why |-> "forms-disagree"])
                           ELSE IF UnknownForms(e) # {} THEN Append(bad, [i |-> l, why |-> "form-not-in-inventory"])
                           ELSE bad
